@@ -333,3 +333,63 @@ func ZZH_C10_CellImageSize() {
 	}
 	zzvReach("cell-size")
 }
+
+// Pictures placed through a template image placeholder follow the same sizing rules: explicit
+// width and height, or one dimension with the other derived from the pixel aspect ratio, or the
+// pixel size; the drawing carries the size computed for the picture.
+func ZZH_C10_TemplateImageSize() {
+	zzvFloatMag(44)
+	zzvFloatRel()
+	zzvMerge(false)
+	d := New()
+	var W, H float64
+	var cfg *ImageConfig
+	mode := zzvChoice(4)
+	switch mode {
+	case 0:
+		W, H = zzvFloatIn(0, 1000), zzvFloatIn(0, 1000)
+		zzvAssume(W > 0 && H > 0)
+	case 1:
+		W = zzvFloatIn(0, 1000)
+		zzvAssume(W > 0)
+	case 2:
+		H = zzvFloatIn(0, 1000)
+		zzvAssume(H > 0)
+	}
+	if mode != 3 {
+		cfg = &ImageConfig{Position: ImagePositionInline, Size: &ImageSize{Width: W, Height: H, KeepAspectRatio: true}}
+	}
+	te := NewTemplateEngine()
+	p, err := te.createImageParagraph(&TemplateImageData{Data: zzhPNG, Config: cfg, AltText: "logo"}, d)
+	zzvAssert(err == nil && p != nil, "placing a template picture succeeds")
+	if p == nil {
+		return
+	}
+	var ext *DrawingExtent
+	for j := range p.Runs {
+		if dr := p.Runs[j].Drawing; dr != nil && dr.Inline != nil {
+			ext = dr.Inline.Extent
+		}
+	}
+	zzvAssert(ext != nil, "the paragraph holds the picture's drawing")
+	if ext == nil {
+		return
+	}
+	// the pixel size of zzhPNG is 3 x 2: the size the sizing rules give for this request
+	cx, cy := d.calculateDisplaySize(&ImageInfo{ID: "0", Width: 3, Height: 2, Config: cfg})
+	zzvAssert(zzvAnd(ext.Cx == zzvItoa(int(cx)), ext.Cy == zzvItoa(int(cy))), "the template picture's drawing carries the size the sizing rules give for the request")
+	fcx, fcy := float64(cx), float64(cy)
+	switch mode {
+	case 0:
+		zzvAssert(zzvAnd(zzvAbsLE(fcx, W*36000, 1.001), zzvAbsLE(fcy, H*36000, 1.001)), "template picture, explicit size: the requested millimetres in EMU")
+	case 1:
+		zzvAssert(zzvAbsLE(fcx, W*36000, 1.001), "template picture, width only: the width is the requested millimetres in EMU")
+		zzvAssert(zzvCrossLE(cy, 3, cx, 2, 10), "template picture, width only: the height follows the pixel aspect ratio")
+	case 2:
+		zzvAssert(zzvAbsLE(fcy, H*36000, 1.001), "template picture, height only: the height is the requested millimetres in EMU")
+		zzvAssert(zzvCrossLE(cx, 2, cy, 3, 10), "template picture, height only: the width follows the pixel aspect ratio")
+	case 3:
+		zzvAssert(zzvAnd(cx == 3*9525, cy == 2*9525), "template picture, no size request: the pixel size at 96 dpi")
+	}
+	zzvReach("template picture sized")
+}
